@@ -71,26 +71,30 @@ CHECKS['C10'] = {
 def c15_jobs(tier):
     nmax = 9 if tier == 'quick' else 11
     jobs = [J('c15_parser.cpp', ['MODE=0', 'LEN=%d' % n], wall=(200 if tier == 'quick' else 1500), markers=((1, 3) if n < 8 else (1, 2, 3))) for n in range(0, nmax + 1)]
-    jobs.append(J('c15_parser.cpp', ['MODE=1', 'PART=0', 'TMAX=%d' % (4 if tier == 'quick' else 6)], wall=(200 if tier == 'quick' else 1500), markers=(1, 2, 3)))
+    jobs.append(J('c15_parser.cpp', ['MODE=1', 'PART=0', 'TMAX=%d' % (6 if tier == 'quick' else 7)], wall=(200 if tier == 'quick' else 1500), markers=(1, 2, 3)))
     jobs.append(J('c15_parser.cpp', ['MODE=1', 'PART=1', 'TMAX=0'] + (['SMALL'] if tier == 'quick' else []), wall=(200 if tier == 'quick' else 1500), markers=(1, 2, 3)))
     jobs.append(J('c15_parser.cpp', ['MODE=2', 'LEN=%d' % (4 if tier == 'quick' else 6)], wall=(200 if tier == 'quick' else 1500), markers=(1, 2, 3, 4)))
     return jobs
 CHECKS['C15'] = {
     'jobs': c15_jobs,
     'bounds': {'quick': 'totality/bounds: every byte string of every length 0..9 in an exactly sized heap block, parse_request(buf,len) and find_request_len; '
-                        'round trip: methods CONNECT / 1 / 3 symbolic letters, targets of 0..4 symbolic bytes over {/ . ? a b %}, 0..2 header lines with 1-2 symbolic name bytes, '
+                        'round trip: methods CONNECT / 1 / 3 symbolic letters, targets of 0..6 symbolic bytes over {/ . ? a b %}, 0..2 header lines with 1-2 symbolic name bytes, '
                         '0-2 symbolic value bytes and whitespace variants; helpers trim/lower_case/normalize on symbolic strings up to 4 bytes',
-               'thorough': 'byte strings up to length 11, two-byte header names, targets up to 6 bytes, helper strings up to 6 bytes'},
+               'thorough': 'byte strings up to length 11, two-byte header names, targets up to 7 bytes, helper strings up to 6 bytes'},
     'outside': ['inputs longer than the bound', 'header values with embedded NUL (trim treats NUL like whitespace; not part of a well-formed request)'],
     'assumptions': ['trim(): no embedded NUL bytes'],
 }
 
 CHECKS['C11'] = {
-    'jobs': {'quick': [J('c11_registry.cpp', ['K=2', 'OBJSET=0'], wall=280, markers=(1, 2))],
-             'thorough': [J('c11_registry.cpp', ['K=3', 'OBJSET=1'], wall=700, markers=(1, 3)), J('c11_registry.cpp', ['K=3', 'OBJSET=2'], wall=700, markers=(1, 2))]},
+    'jobs': {'quick': [J('c11_registry.cpp', ['K=2', 'OBJSET=0'], wall=280, markers=(1, 2)), J('c05_tcp.cpp', ['LEN=2', 'LOSS=0', 'DIR=0', 'MOVES'], wall=120, markers=(1, 2)),
+                       J('c08_udp.cpp', ['SCEN=1', 'NDG=2'], wall=250, markers=(1, 2, 3))],
+             'thorough': [J('c11_registry.cpp', ['K=3', 'OBJSET=1'], wall=700, markers=(1, 3)), J('c11_registry.cpp', ['K=3', 'OBJSET=2'], wall=700, markers=(1, 2)),
+                          J('c05_tcp.cpp', ['LEN=4', 'LOSS=0', 'DIR=0', 'MOVES'], wall=300, markers=(1, 2))]},
     'bounds': {'quick': 'every sequence of K=2 operations from {open v4/v6, bind (9 endpoint forms: explicit, port 0, privileged, second address, wildcard v4/v6, foreign, v6, the port the ephemeral counter points at), close, destroy+recreate, '
                         'move-construct, listen} over 2 TCP sockets, 1 acceptor and 2 UDP sockets of a node with two IPv4 and one IPv6 address; ephemeral counter at 2000 or about to wrap; helper sockets hold port 2001 in both protocols (an ephemeral search may have to skip two ports); '
-                        'then datagram probes to 6 endpoints and a connect probe from a second node, the accepted socket moved, closed and the acceptor re-probed',
+                        'then datagram probes to 6 endpoints and a connect probe from a second node, the accepted socket moved, closed and the acceptor re-probed; '
+                        'connected sockets (c05_tcp): after a transfer with the connector or the accepted socket optionally moved, everything is closed and the connector\'s (ephemeral) endpoint must be free to bind again; '
+                        'datagrams in flight or queued while the receiving UDP socket is closed, replaced, re-opened on another port or destroyed (c08_udp SCEN=1) never reach a socket that no longer holds the binding',
                'thorough': 'K=3 over {TCP socket, acceptor} and over {2 UDP sockets}'},
     'outside': ['bind on an already bound socket (unsupported use)', 'longer histories'],
     'assumptions': ['bind is only called on sockets that are not bound'],
@@ -154,21 +158,26 @@ CHECKS['C06'] = {
 }
 
 CHECKS['C07'] = {
-    'jobs': {'quick': [J('c07_pairing.cpp', ['NCLI=3'], wall=280, markers=(1, 2))],
+    'jobs': {'quick': [J('c07_pairing.cpp', ['NCLI=3'], wall=280, markers=(1, 2)),
+                       J('c05_tcp.cpp', ['LEN=4', 'LOSS=1', 'DROPS=1', 'DIR=0', 'REUSE=1', 'FARDROP'], wall=200, markers=(1, 4))],
              'thorough': [J('c07_pairing.cpp', ['NCLI=3'], wall=700, markers=(1, 2)), J('c07_pairing.cpp', ['NCLI=3', 'AF6=1'], wall=700, markers=(1, 2))]},
     'bounds': {'quick': '3 clients on 2 nodes connect to one acceptor on a two-address server node (listening on either address); each accept uses a symbolic overload (3); accepts posted before the SYNs or after they queued up; '
                         'NAT placement none / one client / both / both behind one external address / client and server; one extra connect to the other address or another port (refused); one distinct byte each way per pair; '
+                        're-accepting into a used socket object (c05_tcp REUSE: the first connection ended by the peer with the end-of-file read, or cut short with data unread; the second connection must carry its 5 bytes and its end-of-file); '
                         'finally close() or close(ec) on the acceptor, a late connect (refused), the same acceptor re-opened and bound but not listening (connect refused); IPv4',
                'thorough': 'same plus the IPv6 instance'},
     'outside': ['more than 3 queued connects', 'several acceptors', 'routes without a queue hop'],
     'assumptions': ['every route between two nodes contains at least one sim::queue'],
 }
 CHECKS['C13'] = {
-    'jobs': {'quick': [J('c07_pairing.cpp', ['NCLI=2', 'UDPPART=1'], wall=120, markers=(1, 2)), J('c07_pairing.cpp', ['NCLI=2'], wall=280, markers=(1, 2))],
+    'jobs': {'quick': [J('c07_pairing.cpp', ['NCLI=2', 'UDPPART=1'], wall=120, markers=(1, 2)), J('c07_pairing.cpp', ['NCLI=2'], wall=280, markers=(1, 2)),
+                       J('c07_pairing.cpp', ['NCLI=2', 'AF6=1', 'BIGREPLY'], wall=280, markers=(1, 2)), J('c07_pairing.cpp', ['NCLI=2', 'SAMEPORT'], wall=280, markers=(1, 2))],
              'thorough': [J('c07_pairing.cpp', ['NCLI=2', 'UDPPART=1'], wall=120, markers=(1, 2)), J('c07_pairing.cpp', ['NCLI=2', 'UDPPART=1', 'AF6=1'], wall=120, markers=(1, 2)),
-                          J('c07_pairing.cpp', ['NCLI=2'], wall=700, markers=(1, 2)), J('c07_pairing.cpp', ['NCLI=2', 'AF6=1'], wall=700, markers=(1, 2))]},
+                          J('c07_pairing.cpp', ['NCLI=2'], wall=700, markers=(1, 2)), J('c07_pairing.cpp', ['NCLI=2', 'AF6=1'], wall=700, markers=(1, 2)),
+                          J('c07_pairing.cpp', ['NCLI=2', 'AF6=1', 'BIGREPLY'], wall=700, markers=(1, 2)), J('c07_pairing.cpp', ['NCLI=2', 'BIGREPLY'], wall=700, markers=(1, 2)),
+                          J('c07_pairing.cpp', ['NCLI=2', 'SAMEPORT'], wall=700, markers=(1, 2)), J('c07_pairing.cpp', ['NCLI=3', 'AF6=1', 'SAMEPORT'], wall=700, markers=(1, 2))]},
     'bounds': {'quick': 'NAT placement none / client 0 / both clients / both clients behind one external address / client 0 and the server; UDP: 3 datagrams (symbolic payload) from two senders, receiver-side sender endpoint, payload, order and arrival time; '
-                        'TCP: 2 connections, remote_endpoint()/local_endpoint() on all four sockets, accept peer endpoint, one byte each way', 'thorough': 'plus IPv6'},
+                        'TCP: 2 connections, remote_endpoint()/local_endpoint() on all four sockets, accept peer endpoint, one byte each way; the same over IPv6 with a path MTU of 2 and a 6-byte answer (several congestion windows towards the natted connector); the same with both clients bound to the same local port', 'thorough': 'plus IPv6 for every variant, 3 clients with the same port'},
     'outside': ['more than 2 nodes behind one NAT', 'NAT in incoming routes (the library documents NAT hops on outgoing routes only)'],
     'assumptions': [],
 }
@@ -270,8 +279,8 @@ CHECKS['C17'] = {
 CHECKS['C01'] = {
     'jobs': {'quick': [J('c01_determinism.cpp', [], wall=200, markers=(1, 2), opts={'max_instr': 30000000})],
              'thorough': [J('c01_determinism.cpp', [], wall=600, markers=(1, 2), opts={'max_instr': 30000000})]},
-    'bounds': {'quick': '3 programs (timers with ties, cancel and posted work; TCP transfer of 6 symbolic bytes through a rate-limited link with the first segment dropped once, packet capture on; '
-                        'UDP through a NAT with three resolver lookups), each executed twice in one process with a different simulation (other ports, clock left at 777 ms, heap garbage) in between; '
+    'bounds': {'quick': '4 programs (timers with ties, cancel and posted work; TCP transfer of 6 symbolic bytes through a rate-limited link with the first segment dropped once, packet capture on; '
+                        'UDP through a NAT with three resolver lookups, the receiving socket moved before use and again with a receive outstanding; UDP echo and a TCP transfer under one sim::default_config object that serves every simulation of the process), each executed twice in one process with a different simulation (other ports, clock left at 777 ms, heap garbage) in between; '
                         'the complete traces (up to 400 records including every capture byte) are compared element-wise; all uninitialised bytes are independent fresh symbols in each run',
                'thorough': 'same programs'},
     'outside': ['dependence on the relative order of unrelated heap addresses beyond what the two runs of one path exhibit (object addresses are concrete in the engine)',
